@@ -661,3 +661,58 @@ M2('c15-k2-unset-cookie-inert-expires-default-positive', 'C15', 'R4', [
     {'file': RESP, 'old': "        path: Optional[str] = None,\n    ) -> None:\n        \"\"\"Unset a cookie",
      'new': "        path: Optional[str] = None,\n        _expires: int = 1,\n    ) -> None:\n        \"\"\"Unset a cookie"},
     {'file': RESP, 'old': "        self._cookies[name]['expires'] = -1", 'new': "        self._cookies[name]['expires'] = _expires"}])
+
+# ---------------------------------------------------------------- wave 11
+# R7 (shared with C10 R5), seed s11-c15-2: the already-escaped scan behind Location / Content-Location / Link rewritten
+# as a find() loop whose slice test is also true for a slice shorter than two characters: resp.location = '/sale/100%'
+# is emitted verbatim
+_W11_SPLIT_SCAN = ("            tokens = uri.split('%')\n            for token in tokens[1:]:\n                hex_octet = token[:2]\n\n"
+                   "                if not len(hex_octet) == 2:\n                    break\n\n"
+                   "                if not (hex_octet[0] in _HEX_DIGITS and hex_octet[1] in _HEX_DIGITS):\n                    break\n")
+M('c15-w11-find-scan-rstrip-no-length', 'C15', 'R7', 'falcon/util/uri.py', _W11_SPLIT_SCAN,
+  "            pos = uri.find('%')\n            while pos != -1:\n                if uri[pos + 1 : pos + 3].rstrip(_HEX_DIGITS):\n"
+  "                    break\n\n                pos = uri.find('%', pos + 3)\n", also=('C10',))
+M('c15-w11-find-scan-lstrip-eq-empty', 'C15', 'R7', 'falcon/util/uri.py', _W11_SPLIT_SCAN,
+  "            pos = uri.find('%')\n            while pos != -1:\n                chunk = uri[pos + 1 : pos + 3]\n"
+  "                if chunk.lstrip(_HEX_DIGITS) != '':\n                    break\n\n                pos = uri.find('%', pos + 1)\n", also=('C10',))
+
+
+# k4-c15-1 refactoring + break: inverted test / guard clauses / early returns, presence decided by the truth of the stored value
+_APPEND_OLD = """        if name == 'set-cookie':
+            if not self._extra_headers:
+                self._extra_headers = [(name, value)]
+            else:
+                self._extra_headers.append((name, value))
+        else:
+            if name in self._headers:
+                value = self._headers[name] + ', ' + value
+
+            self._headers[name] = value
+"""
+M('c15-k4-append-header-guard-clauses-truthiness', 'C15', 'R12', 'falcon/response.py', _APPEND_OLD,
+  """        if name != 'set-cookie':
+            current = self._headers.get(name)
+            if not current:
+                self._headers[name] = value
+                return
+
+            self._headers[name] = current + ', ' + value
+            return
+
+        if self._extra_headers:
+            self._extra_headers.append((name, value))
+            return
+
+        self._extra_headers = [(name, value)]
+""")
+M('c15-k4-append-header-guard-clauses-ifexp-truthiness', 'C15', 'R12', 'falcon/response.py', _APPEND_OLD,
+  """        if name != 'set-cookie':
+            self._headers[name] = (self._headers[name] + ', ' + value) if self._headers.get(name) else value
+            return
+
+        if self._extra_headers:
+            self._extra_headers.append((name, value))
+            return
+
+        self._extra_headers = [(name, value)]
+""")
